@@ -167,27 +167,27 @@ def rfind (s : Str) (c : Char) : Option Nat :=
   | some i => some (s.length - 1 - i)
   | none => none
 
+/-- second half of `_float`: `text` already carries its sign and the decimal point -/
+def tleFloatSigned (text : Str) : Except Err Dec :=
+  let tail := text.drop 1
+  if tail.contains '+' || tail.contains '-' then
+    let sep := if tail.contains '+' then '+' else '-'
+    match rfind text sep with
+    | none => .error .outOfModel
+    | some k =>
+      let value := text.take k
+      let expo := text.drop (k + 1)
+      -- float(f"{value}e{exp_sign}{expo}"): the string starts with a sign and ends with `expo`, nothing is stripped inside
+      match pyFloatCore value, digitsVal expo with
+      | .ok d, some x => .ok { d with scale := if sep = '-' then d.scale + x else d.scale - x }
+      | _, _ => .error .valueError
+  else pyFloat text
+
 /-- `_float(text)`: "decimal point assumed" fields -/
 def tleFloat (text : Str) : Except Err Dec :=
-  let text := strip text
-  match text with
+  match strip text with
   | [] => .error .indexError
-  | c0 :: tl =>
-    let text : Str := if c0 = '-' || c0 = '+' then c0 :: '.' :: tl else '+' :: '.' :: text
-    let tail := text.drop 1
-    if tail.contains '+' || tail.contains '-' then
-      let sep := if tail.contains '+' then '+' else '-'
-      match rfind text sep with
-      | none => .error .outOfModel
-      | some k =>
-        let value := text.take k
-        let expo := text.drop (k + 1)
-        -- float(f"{value}e{exp_sign}{expo}"): the string starts with a sign and ends with `expo`, nothing is stripped inside
-        match pyFloatCore value, digitsVal expo with
-        | .ok d, some x => .ok { d with scale := if sep = '-' then d.scale + x else d.scale - x }
-        | .error .valueError, _ => .error .valueError
-        | _, _ => .error .valueError
-    else pyFloat text
+  | c0 :: tl => tleFloatSigned (if c0 = '-' || c0 = '+' then c0 :: '.' :: tl else '+' :: '.' :: c0 :: tl)
 
 /-! ## `Tle.__init__` -/
 
